@@ -4,10 +4,20 @@
 package c04
 
 import (
+	"context"
+	"fmt"
+	"math/rand"
 	"os"
 	"runtime"
+	"sync"
+	"sync/atomic"
 	"testing"
 	"time"
+
+	"github.com/acquirecloud/golibs/kvs"
+	dist "github.com/acquirecloud/golibs/kvs/distlock"
+	"github.com/acquirecloud/golibs/kvs/inmem"
+	gsync "github.com/acquirecloud/golibs/sync"
 
 	"verifharness/internal/locksim"
 	"verifharness/internal/report"
@@ -33,10 +43,99 @@ var plan = locksim.Plan{
 // TestChild runs one shard of the controlled part in a single bubble.
 func TestChild(t *testing.T) { locksim.ChildMain(t, plan) }
 
+// freeRound: real scheduling (race detector on). W workers on several Lockers of several providers over one
+// in-memory store each acquire and release the lock K times through Lock / LockWithCtx (some with short
+// deadlines) / TryLock. Hand-off: everybody must finish; a waiter that misses the release of the lock is only
+// rescued when the lease (10 s by default) of the record it waits for runs out, so a round that needs more
+// than handOffBound is a lost wake-up (healthy: milliseconds). Residue: afterwards the record is gone, the
+// waiter table is empty and every Locker can TryLock/Unlock.
+const handOffBound = 4 * time.Second
+
+type freeCfg struct {
+	Seed      int64 `json:"seed"`
+	Providers int   `json:"providers"`
+	Lockers   int   `json:"lockers"`
+	Workers   int   `json:"workers"`
+	K         int   `json:"acquisitions"`
+}
+
+func freeRound(c freeCfg) (sig, what string, timeBound bool) {
+	inner := inmem.New()
+	var provs []dist.LockProvider
+	for i := 0; i < c.Providers; i++ {
+		provs = append(provs, dist.NewKvsLockProvider(inner, "/h/"))
+	}
+	var lockers []gsync.Locker
+	for i := 0; i < c.Lockers; i++ {
+		lockers = append(lockers, provs[i%c.Providers].NewLocker("x"))
+	}
+	var wg sync.WaitGroup
+	var acquired atomic.Int64
+	begin := time.Now()
+	for w := 0; w < c.Workers; w++ {
+		wg.Add(1)
+		go func(w int) {
+			defer wg.Done()
+			r := rand.New(rand.NewSource(c.Seed*131 + int64(w)))
+			l := lockers[w%c.Lockers]
+			for i := 0; i < c.K; i++ {
+				got := false
+				switch r.Intn(5) {
+				case 0:
+					got = l.TryLock(context.Background())
+				case 1:
+					ctx, cancel := context.WithTimeout(context.Background(), time.Duration(r.Intn(400))*time.Microsecond)
+					got = l.LockWithCtx(ctx) == nil
+					cancel()
+				case 2:
+					got = l.LockWithCtx(context.Background()) == nil
+				default:
+					l.Lock()
+					got = true
+				}
+				if got {
+					acquired.Add(1)
+					if r.Intn(3) == 0 {
+						runtime.Gosched()
+					}
+					l.Unlock()
+				}
+			}
+		}(w)
+	}
+	done := make(chan struct{})
+	go func() { wg.Wait(); close(done) }()
+	select {
+	case <-done:
+	case <-time.After(60 * time.Second):
+		return "lock/free-running-stuck", fmt.Sprintf("real scheduling: %d workers on %d lockers did not all finish their %d acquisitions within 60 s (healthy: milliseconds)", c.Workers, c.Lockers, c.K), true
+	}
+	if el := time.Since(begin); el > handOffBound {
+		return "lock/free-running-hand-off-late", fmt.Sprintf("real scheduling: %d workers needed %v for %d acquisitions each (healthy: milliseconds): a waiter was not woken by the release it waited for and was only rescued by the lease running out", c.Workers, el, c.K), true
+	}
+	if _, err := inner.Get(context.Background(), "/h/x"); err == nil {
+		return "lock/residue/record", "real scheduling: everybody has unlocked but the lock record is still in the store", false
+	}
+	if t := inmem.VerifWaiters(inner); len(t) != 0 {
+		return "lock/residue/waiter-table", fmt.Sprintf("real scheduling: waiter table not empty at the end: %v", t), false
+	}
+	for i, l := range lockers {
+		if !l.TryLock(context.Background()) {
+			return "lock/residue/trylock-false", fmt.Sprintf("real scheduling: at the end TryLock on locker %d fails", i), false
+		}
+		l.Unlock()
+	}
+	for _, p := range provs {
+		p.Shutdown()
+	}
+	_ = kvs.Record{}
+	return "", "", false
+}
+
 func TestCheck(t *testing.T) {
 	run := report.New(prop, "exploration")
 	defer run.Finish(t)
-	run.Rule("scenarios of 2-5 workers (distinct Lockers of 1-3 providers and goroutines sharing a Locker) running programs of 1-3 attempts over {Lock, TryLock, LockWithCtx} with re-acquisition, inside a synctest bubble; every kvs.Storage call of the lock code is a gate; one enabled action per step: release a gate, start an attempt, cancel a LockWithCtx before or during the call, leave a critical section, Shutdown a provider. Random and PCT schedules plus exhaustive DFS of 27 two-worker configurations. Oracles: (a) stuck = unfinished workers and no progress action at quiescence; (b) return values (cancelled-before-call => context error; uncancelled attempts succeed; nothing acquires after Shutdown returned); (c) residue at the end: no lock record, empty waiter table, no pending lease timer, TryLock/Unlock works again on every Locker of a live provider. distinct = distinct (configuration, action trace) pairs executed")
+	run.Rule("scenarios of 2-5 workers (distinct Lockers of 1-3 providers and goroutines sharing a Locker) running programs of 1-3 attempts over {Lock, TryLock, LockWithCtx} with re-acquisition, inside a synctest bubble; every kvs.Storage call of the lock code is a gate; one enabled action per step: release a gate, start an attempt, cancel a LockWithCtx before or during the call, leave a critical section, Shutdown a provider. Random and PCT schedules plus exhaustive DFS of 27 two-worker configurations. Oracles: (a) stuck = unfinished workers and no progress action at quiescence; (b) return values (cancelled-before-call => context error; uncancelled attempts succeed; nothing acquires after Shutdown returned); (c) residue at the end: no lock record, empty waiter table, no pending lease timer, TryLock/Unlock works again on every Locker of a live provider. free-running: 600 / 30 000 rounds of 3-10 real goroutines on 2-4 Lockers under the race detector: everybody finishes within 4 s (a missed release is only rescued by the 10 s lease), then the same residue probes. distinct = distinct (configuration, action trace) pairs executed + distinct free-running configurations")
 	run.Assume("liveness is decided in its bounded form: every controlled execution is finite and never reaches a state without a progress action while a worker is unfinished")
 	run.Assume("attempts already parked in the storage wait when Shutdown is called are not constrained by the statement and are not judged; frozen virtual time")
 
@@ -47,4 +146,62 @@ func TestCheck(t *testing.T) {
 	nsh := runtime.NumCPU()
 	shard.Run(run, "TestChild", "random", nsh, 45*time.Minute)
 	shard.Run(run, "TestChild", "dfs", nsh, 45*time.Minute)
+
+	// free-running hand-off and residue under real scheduling
+	n := run.Pick(600, 30000)
+	var wg sync.WaitGroup
+	jobs := make(chan freeCfg, 32)
+	for w := 0; w < runtime.NumCPU()/2; w++ {
+		wg.Add(1)
+		go func() {
+			defer wg.Done()
+			for c := range jobs {
+				if run.Violations() > 0 {
+					continue
+				}
+				for attempt := 1; ; attempt++ {
+					var worst atomic.Int64
+					stop := make(chan struct{})
+					go func() { // stall canary
+						for {
+							select {
+							case <-stop:
+								return
+							default:
+							}
+							t0 := time.Now()
+							time.Sleep(2 * time.Millisecond)
+							if o := int64(time.Since(t0) - 2*time.Millisecond); o > worst.Load() {
+								worst.Store(o)
+							}
+						}
+					}()
+					sig, what, tb := freeRound(c)
+					close(stop)
+					stall := time.Duration(worst.Load())
+					if sig != "" && tb && stall > handOffBound/8 {
+						if attempt < 3 {
+							run.Add("free_rounds_repeated_because_of_a_stall", 1)
+							continue
+						}
+						run.Inconclusive(fmt.Sprintf("%s (canary stall %v)", what, stall))
+						break
+					}
+					run.Eval(1)
+					run.Add("free_rounds", 1)
+					run.DistinctStr(fmt.Sprint("free", c))
+					if sig != "" {
+						run.Violation(sig, what, map[string]any{"mode": "free", "config": c})
+					}
+					break
+				}
+			}
+		}()
+	}
+	rng := rand.New(rand.NewSource(run.Seed()))
+	for i := 0; i < n; i++ {
+		jobs <- freeCfg{Seed: run.Seed()*100_003 + int64(i), Providers: 1 + rng.Intn(3), Lockers: 2 + rng.Intn(3), Workers: 3 + rng.Intn(8), K: 4 + rng.Intn(5)}
+	}
+	close(jobs)
+	wg.Wait()
 }
